@@ -668,7 +668,10 @@ class Ref:
                 return "miss"
             it[2] = pos
             return fmt_item(ix, pos[0], pos[1])
-        if o == "finfo":
+        if o == "finfoa":
+            self.drop(int(t[1]))
+            return "ok"
+        if o in ("finfo", "finfof", "finfog"):
             k = int(t[1])
             self.drop(k)
             exp = self.finfo_expect.get(line)
